@@ -121,7 +121,13 @@ fn run_session(spec: &SenderSpec, objs: &[ObjSpec], receive_once: bool, cr: &mut
             cr.violations.push(v.witness(wit));
         }
         Ok(Err(e)) => {
-            cr.violations.push(Violation::new("emit_error", format!("sender run failed: {}", e)).with("fec", fec0).witness(wit));
+            if e.starts_with("publish:") {
+                // the session's default OTI cannot carry this FDT: publish() told the caller,
+                // nothing was sent (precondition of the property, counted, not judged)
+                cr.count("sessions_refused_at_publish", 1);
+            } else {
+                cr.violations.push(Violation::new("emit_error", format!("sender run failed: {}", e)).with("fec", fec0).witness(wit));
+            }
         }
         Ok(Ok((em, rx))) => {
             if !em.finished && em.tois.iter().any(|t| t.is_some()) {
@@ -147,7 +153,7 @@ fn run_session(spec: &SenderSpec, objs: &[ObjSpec], receive_once: bool, cr: &mut
             cr.sample = Some(json!({"sender": em.spec.json(), "objects": s, "packets": em.stream.len()}));
         }
     }
-    cr.violations.truncate(6);
+    limit(&mut cr.violations, 6);
 }
 
 fn main() {
@@ -395,7 +401,7 @@ fn main() {
                 }
             }
             std::fs::remove_dir_all(&dest).ok();
-            cr.violations.truncate(4);
+            limit(&mut cr.violations, 4);
             cr
         }));
         let _ = SystemTime::now;
